@@ -58,7 +58,7 @@ def generate(rng, tier, i):
     # application thread submits a group for the same buffer exactly then
     scn['reuse_lists'] = rng.random() < 0.5
     # an unrelated periodic timer of the application on the sending ECU (its expiries interleave with the buffers' deadlines)
-    scn['periodic_timer_ms'] = rng.choice([None, None, 7, 30, 100])
+    scn['periodic_timer_ms'] = rng.choice([None, None, None, 30, 100])
     if rng.random() < 0.2:
         cand = [c for c in calls if c['ctx'] == 'app' and c.get('on_tx') is None]
         for c in rng.sample(cand, min(len(cand), rng.randint(1, 2))):
